@@ -12,6 +12,9 @@ import (
 	"encoding/gob"
 	"fmt"
 	"io"
+	"reflect"
+	"sort"
+	"strings"
 	"sync"
 	"time"
 
@@ -221,3 +224,103 @@ func VerifNewCombiner(typ slicetype.Type, name string, comb slicefunc.Func, targ
 	return newCombiner(typ, name, comb, targetSize)
 }
 func VerifThreshold(c *VerifCombiningFrame) int { return c.threshold }
+
+// ---- C08: compilation
+
+// VerifCompile compiles the invocation of fn on args exactly as Session.run does and returns
+// a canonical dump of the reachable task graph (one line per task, sorted by name).
+func VerifCompile(fn *bigslice.FuncValue, machineCombiners bool, args ...interface{}) (dump []string, err error) {
+	inv := makeExecInvocation(fn.Invocation("verif", args...))
+	slice := inv.Invoke()
+	tasks, err := compile(inv, slice, machineCombiners)
+	if err != nil {
+		return nil, err
+	}
+	return VerifDumpTasks(tasks, inv.Index), nil
+}
+
+// VerifCompileEncoded does the same after a gob round trip of the invocation (as a worker would).
+func VerifCompileEncoded(fn *bigslice.FuncValue, machineCombiners bool, args ...interface{}) (dump []string, err error) {
+	inv0 := makeExecInvocation(fn.Invocation("verif", args...))
+	// the driver compiles first (marking cached ops in the environment), then ships the frozen invocation
+	if _, err := compile(inv0, inv0.Invoke(), machineCombiners); err != nil {
+		return nil, err
+	}
+	inv0.Env.Freeze()
+	var b bytes.Buffer
+	if err := gob.NewEncoder(&b).Encode(inv0); err != nil {
+		return nil, err
+	}
+	var inv execInvocation
+	if err := gob.NewDecoder(&b).Decode(&inv); err != nil {
+		return nil, err
+	}
+	tasks, err := compile(inv, inv.Invoke(), machineCombiners)
+	if err != nil {
+		return nil, err
+	}
+	return VerifDumpTasks(tasks, inv.Index), nil
+}
+
+func VerifResultTasks(r *Result) []*Task { return r.tasks }
+
+// VerifInvNames maps invocation indices to stable tags in dumps ("X" for the compiled invocation,
+// "R0", "R1" for the invocations whose results are its arguments).
+var VerifInvNames = map[uint64]string{}
+
+func VerifResultInv(r *Result) uint64 { return r.invIndex }
+
+func VerifDumpTasks(roots []*Task, invIndex uint64) []string {
+	all := make(map[*Task]bool)
+	for _, t := range roots {
+		t.all(all)
+	}
+	norm := func(s string) string {
+		s = strings.ReplaceAll(s, fmt.Sprintf("inv%d_", invIndex), "invX_")
+		for idx, tag := range VerifInvNames {
+			s = strings.ReplaceAll(s, fmt.Sprintf("inv%d_", idx), "inv"+tag+"_")
+		}
+		return s
+	}
+	isRoot := make(map[*Task]int)
+	for i, t := range roots {
+		isRoot[t] = i + 1
+	}
+	var lines []string
+	for t := range all {
+		var deps []string
+		for _, d := range t.Deps {
+			e := 0
+			if d.Expand {
+				e = 1
+			}
+			deps = append(deps, fmt.Sprintf("%s@%d:%d/p%d/e%d/k%s/n%d", norm(d.Head.Name.Op), d.Head.Name.NumShard, d.Head.Name.Shard,
+				d.Partition, e, norm(d.CombineKey), d.NumTask()))
+		}
+		group := "-"
+		if len(t.Group) > 0 {
+			group = fmt.Sprintf("%s@%d:%d+%d", norm(t.Group[0].Name.Op), t.Group[0].Name.NumShard, t.Group[0].Name.Shard, len(t.Group))
+		}
+		var ops []string
+		for _, s := range t.Slices {
+			ops = append(ops, s.Name().Op)
+		}
+		custom := 0
+		if t.Partitioner != nil && reflect.ValueOf(t.Partitioner).Pointer() != reflect.ValueOf(bigslice.Partitioner(defaultPartitioner)).Pointer() {
+			custom = 1
+		}
+		comb := 0
+		if !t.Combiner.IsNil() {
+			comb = 1
+		}
+		hasPart := 0
+		if t.Partitioner != nil {
+			hasPart = 1
+		}
+		lines = append(lines, fmt.Sprintf("%s@%d:%d root=%d np=%d part=%d custom=%d comb=%d ck=%s group=%s mat=%v deps=[%s] ops=[%s]",
+			norm(t.Name.Op), t.Name.NumShard, t.Name.Shard, isRoot[t], t.NumPartition, hasPart, custom, comb, norm(t.CombineKey), group,
+			t.Pragma != nil && t.Pragma.Materialize(), strings.Join(deps, " "), strings.Join(ops, ",")))
+	}
+	sort.Strings(lines)
+	return lines
+}
